@@ -184,7 +184,7 @@ C19Clause(st) ==
 C14Premise ==
   LET el == Case.world.elements
       banc == AncFromParents(Case.world.elbase)
-      IsTy(n) == el[n].k \in {"cls", "gen", "any", "metaof"}
+      IsTy(n) == el[n].k \in {"cls", "gen", "any", "metaof", "un"}
   IN \A a, b \in 2..Len(el) :
        (IsTy(a) /\ IsTy(b)) => ((b \in W.anc[a]) <=> SubElem(banc, el[a], el[b]))
 
